@@ -7,7 +7,8 @@ CONSTANT MaxLen
 BIG == 0 - 1
 Call(op, a, b) == [op |-> op, a |-> a, b |-> b]
 Alphabet ==
-  { Call("frame", i, 0) : i \in 1..4 } \cup
+  { Call("frame", i, k) : i \in 1..3, k \in 0..2 } \cup        \* palette frame i with frame number k
+  { Call("vframe", 1, k) : k \in {0, 32, 64} } \cup             \* variable-blocksize frame starting at sample k
   { Call("meta", i, 0) : i \in 1..2 } \cup
   { Call("bs", p[1], p[2]) : p \in { <<32, 64>>, <<64, 32>>, <<BIG, 64>>, <<64, BIG>>, <<40000, 40000>>, <<0, 0>>, <<16, 16>> } } \cup
   { Call("fs", p[1], p[2]) : p \in { <<10, 20>>, <<20, 10>>, <<BIG, 5>>, <<5, BIG>>, <<0, 0>> } } \cup
